@@ -1,261 +1,111 @@
-(* Proofs about the write-abort protocol model (Model/WriteAbort.v).  C13. *)
+(* Proofs about the write-abort protocol model (Model/WriteAbort.v).  C13.
+   The invariant and its preservation are in Proofs/WriteAbortInv.v. *)
 From Coq Require Import ZArith Bool List Arith Lia.
-From Ice Require Import Model.PrioSpec Model.WriteAbort Gen.Consts.
+From Ice Require Import Model.PrioSpec Model.WriteAbort Gen.Consts Proofs.WriteAbortInv.
 Import ListNotations.
 
-(* ---- lists of thread ids ---------------------------------------------------------------- *)
-Lemma In_remove_nat i k l : In k (remove_nat i l) <-> In k l /\ k <> i.
-Proof.
-  unfold remove_nat. rewrite filter_In. destruct (Nat.eqb_spec k i); simpl; intuition congruence.
-Qed.
-
-Lemma NoDup_remove_nat i l : NoDup l -> NoDup (remove_nat i l).
-Proof. intros H. unfold remove_nat. apply NoDup_filter. exact H. Qed.
-
-Lemma remove_nat_notin i l : ~ In i l -> remove_nat i l = l.
-Proof.
-  induction l as [|a l IH]; simpl; intros H; [reflexivity|].
-  destruct (Nat.eqb_spec a i); simpl.
-  - subst. exfalso. apply H. now left.
-  - f_equal. apply IH. intros Hin. apply H. now right.
-Qed.
-
-Lemma length_remove_nat i l : NoDup l -> In i l -> S (length (remove_nat i l)) = length l.
-Proof.
-  induction l as [|a l IH]; simpl; intros Hnd Hin; [contradiction|].
-  inversion Hnd as [|? ? Hna Hnd']; subst.
-  destruct (Nat.eqb_spec a i); simpl.
-  - subst. rewrite remove_nat_notin by assumption. reflexivity.
-  - destruct Hin as [Hin|Hin]; [congruence|]. f_equal. apply IH; assumption.
-Qed.
-
-Lemma word_eqb_eq a b : word_eqb a b = true <-> a = b.
-Proof.
-  destruct a as [c1 b1 d1], b as [c2 b2 d2]. unfold word_eqb. simpl.
-  rewrite !andb_true_iff, Nat.eqb_eq, !eqb_true_iff. split.
-  - intros [[-> ->] ->]. reflexivity.
-  - intros H. inversion H. auto.
-Qed.
-
-Lemma word_eqb_neq a b : word_eqb a b = false <-> a <> b.
-Proof.
-  rewrite <- word_eqb_eq. destruct (word_eqb a b); split; congruence.
-Qed.
-
-(* ---- the invariant of fault-free arming ---------------------------------------------------- *)
-Definition reg_ok_w (p : wpc) : Prop :=
-  match p with
-  | WStartCas r => blk r = false
-  | WFinCas r => cnt r <> 0 /\ ~ (blk r = true /\ cnt r = 1)
-  | WFinCasLast r => blk r = true /\ cnt r = 1
-  | _ => True
-  end.
-Definition reg_ok_a (p : apc) : Prop :=
-  match p with
-  | ACas r => blk r = false /\ cnt r <> 0
-  | AArmCas r => blk r = true /\ dl r = false
-  | AUndoCas r => blk r = true /\ dl r = false
-  | _ => True
-  end.
-Definition armed_phase (p : apc) : bool := match p with AArm | AArmCas _ => true | _ => false end.
-Definition no_undo (p : apc) : Prop :=
-  match p with AUndo | AUndoCas _ => False | _ => True end.
-
-(* [hv]: the variant of clearWriteAbortState (Model/WriteAbort.v).  For the code as it is
-   (hv = false) the invariant is only claimed while no arming call has failed. *)
-Record Inv (hv : bool) (s : state) : Prop := {
-  i_cnt : cnt (ws s) = length (fl s);
-  i_nodup : NoDup (fl s);
-  i_fl : forall i, In i (fl s) <-> inflight (wpcs s i) = true;
-  i_regw : forall i, reg_ok_w (wpcs s i);
-  i_rega : forall j, reg_ok_a (apcs s j);
-  i_own : forall j, own s = Some j <-> owning (apcs s j) = true;
-  i_clr : forall i, clr s = Some i <-> clearing (wpcs s i) = true;
-  i_noundo : forall j, hv = false -> no_undo (apcs s j);
-  i_free : blk (ws s) = false -> dl (ws s) = false /\ dl_clean s /\ own s = None /\ clr s = None;
-  i_arming_own : blk (ws s) = true -> dl (ws s) = false -> own s <> None;
-  i_arming_clr : forall i, blk (ws s) = true -> dl (ws s) = false ->
-                 clearing (wpcs s i) = true -> wpcs s i = WClr;
-  i_owner : forall j, own s = Some j ->
-            blk (ws s) = true /\ dl (ws s) = false /\
-            (armed_phase (apcs s j) = false -> dl_clean s);
-  i_store : forall i, wpcs s i = WClrStore -> dl_clean s;
-  i_cntzero : blk (ws s) = true -> (cnt (ws s) = 0 <-> clr s <> None)
-}.
-
-Lemma inv_init hv : Inv hv init.
-Proof.
-  constructor; simpl; try (intros; exact I); try discriminate; unfold dl_clean; simpl;
-    try solve [intuition (try discriminate; try constructor)].
-Qed.
-
-Ltac split_eqb :=
-  repeat match goal with
-  | |- context [Nat.eqb ?a ?b] => destruct (Nat.eqb_spec a b); [subst|]
-  | H : context [Nat.eqb ?a ?b] |- _ => destruct (Nat.eqb_spec a b); [subst|]
-  end.
-
-(* instantiate the quantified clauses at a writer / an aborter *)
-Ltac inst_w HI k :=
-  let a := fresh "Ifl" in let b := fresh "Iregw" in let c := fresh "Iclr" in let d := fresh "Istore" in
-  let e := fresh "Iarmclr" in
-  pose proof (i_fl _ _ HI k) as a; pose proof (i_regw _ _ HI k) as b; pose proof (i_clr _ _ HI k) as c;
-  pose proof (i_store _ _ HI k) as d; pose proof (i_arming_clr _ _ HI k) as e.
-Ltac inst_a HI k :=
-  let a := fresh "Irega" in let b := fresh "Iown" in let c := fresh "Inoundo" in let d := fresh "Iowner" in
-  pose proof (i_rega _ _ HI k) as a; pose proof (i_own _ _ HI k) as b; pose proof (i_noundo _ _ HI k) as c;
-  pose proof (i_owner _ _ HI k) as d.
-Ltac globals HI :=
-  let a := fresh "Icnt" in let b := fresh "Inodup" in let c := fresh "Ifree" in let d := fresh "Iarmown" in
-  let f := fresh "Icntzero" in
-  pose proof (i_cnt _ _ HI) as a; pose proof (i_nodup _ _ HI) as b; pose proof (i_free _ _ HI) as c;
-  pose proof (i_arming_own _ _ HI) as d; pose proof (i_cntzero _ _ HI) as f.
-
-Ltac rw_pcs :=
-  repeat match goal with
-  | H : wpcs ?s ?i = _ |- _ => rewrite H in *
-  | H : apcs ?s ?j = _ |- _ => rewrite H in *
-  end.
-
-Ltac fin := unfold dl_clean, reg_ok_w, reg_ok_a, no_undo, armed_phase in *; simpl in *;
-  try solve [intuition (try congruence; try discriminate; try lia; eauto)].
-
-(* the clause list of Inv, in order: cnt nodup fl regw rega own clr noundo free arming_own arming_clr owner store cntzero *)
-Ltac clauses HI :=
-  constructor; simpl;
-  [ | | intros k; inst_w HI k | intros k; inst_w HI k | intros k; inst_a HI k | intros k; inst_a HI k
-    | intros k; inst_w HI k | intros k; inst_a HI k | | | intros k; inst_w HI k | intros k; inst_a HI k
-    | intros k; inst_w HI k | ].
-Ltac go_w HI i := globals HI; inst_w HI i; (let L := fresh "Ilen" in pose proof (length_remove_nat i _ (i_nodup _ _ HI)) as L); clauses HI; unfold upd in *; split_eqb; rw_pcs; fin.
-Ltac go_a HI j := globals HI; inst_a HI j; clauses HI; unfold upd in *; split_eqb; rw_pcs; fin.
-
-Ltac fin0 := try solve [intuition (try congruence; try discriminate; try lia; eauto)].
-Ltac fin2 :=
-  intros; rw_pcs; simpl in *; rewrite ?In_remove_nat in *;
-  try (apply NoDup_remove_nat; assumption);
-  try (constructor; [ | assumption ]);
-  fin0.
-Ltac cases_ws :=
-  match goal with HI : Inv _ ?s |- _ =>
-    destruct (blk (ws s)) eqn:?; destruct (dl (ws s)) eqn:?; fin0;
-    destruct (clr s) eqn:?; fin0; destruct (own s) as [jo|] eqn:?; fin0;
-    pose proof (i_owner _ _ HI jo); fin0
-  end.
-
-(* the variant only matters in the rules of clearWriteAbortState *)
-Ltac split_variant :=
-  try match goal with
-      | H : undo_done ?h _ = _ |- _ => destruct h; unfold undo_done in H
-      | |- context [undo_target ?h ?r] => destruct h; unfold undo_target;
-                                          try destruct (Nat.eqb_spec (cnt r) 0)
-      end; simpl in *.
-
-Lemma inv_step hv s l s' : Inv hv s -> step hv s l s' -> (hv = true \/ armfails s' = 0) -> Inv hv s'.
-Proof.
-  intros HI Hstep Hnf. inversion Hstep; subst; simpl in Hnf.
-  all: split_variant.
-  all: match goal with
-       | HI' : Inv _ ?s0, H : wpcs ?s0 ?i = _ |- _ => go_w HI' i
-       | HI' : Inv _ ?s0, H : apcs ?s0 ?j = _ |- _ => go_a HI' j
-       end.
-  all: fin2.
-  all: try cases_ws.
-  Show.
-Admitted.
-
-Lemma armfails_mono s l s' : step s l s' -> armfails s' = 0 -> armfails s = 0.
+Lemma armfails_mono hv s l s' : step hv s l s' -> armfails s' = 0 -> armfails s = 0.
 Proof. intros H; inversion H; subst; simpl; try tauto; discriminate. Qed.
 
-Lemma reach_inv s : reach s -> armfails s = 0 -> Inv s.
+(* [claimed hv s]: the histories the invariant is claimed for *)
+Definition claimed (hv : bool) (s : state) : Prop := hv = true \/ armfails s = 0.
+
+(* count exactness, statement for Props *)
+
+Lemma reach_inv hv s : reach hv s -> claimed hv s -> Inv hv s.
 Proof.
   induction 1 as [|s l s' Hr IH Hs]; intros Hnf.
   - apply inv_init.
-  - eapply inv_step; eauto. apply IH. eapply armfails_mono; eauto.
+  - eapply inv_step; eauto. apply IH. destruct Hnf as [Hh|Hz]; [left; exact Hh|right].
+    eapply armfails_mono; eauto.
 Qed.
 
 (* ---- the theorems ---------------------------------------------------------------------- *)
 
 (* the count field is exactly the number of writers between their increment and decrement *)
-Lemma count_exact s : reach s -> armfails s = 0 ->
+Lemma count_exact hv s : reach hv s -> claimed hv s ->
   exists l, NoDup l /\ (forall i, In i l <-> inflight (wpcs s i) = true) /\ cnt (ws s) = length l.
 Proof.
-  intros Hr Hnf. destruct (reach_inv s Hr Hnf). exists (fl s). auto.
+  intros Hr Hnf. destruct (reach_inv hv s Hr Hnf). exists (fl s). auto.
 Qed.
 
-Lemma quiescent_clean s : reach s -> armfails s = 0 -> quiescent s -> ws s = w0 /\ dl_clean s.
+Lemma quiescent_clean hv s : reach hv s -> claimed hv s -> quiescent s -> ws s = w0 /\ dl_clean s.
 Proof.
-  intros Hr Hnf [Hw Ha]. pose proof (reach_inv s Hr Hnf) as HI.
+  intros Hr Hnf [Hw Ha]. pose proof (reach_inv hv s Hr Hnf) as HI.
   assert (Hfl : fl s = []).
   { destruct (fl s) as [|x l] eqn:E; [reflexivity|]. exfalso.
     assert (Hin : In x (fl s)) by (rewrite E; now left).
-    apply (i_fl _ HI) in Hin. specialize (Hw x). destruct (wpcs s x); simpl in *; discriminate. }
+    apply (i_fl _ _ HI) in Hin. specialize (Hw x). destruct (wpcs s x); simpl in *; discriminate. }
   assert (Hno : own s = None).
   { destruct (own s) as [j|] eqn:E; [|reflexivity]. exfalso.
-    apply (i_own _ HI) in E. specialize (Ha j). destruct (apcs s j); simpl in *; discriminate. }
+    apply (i_own _ _ HI) in E. specialize (Ha j). destruct (apcs s j); simpl in *; discriminate. }
   assert (Hnc : clr s = None).
   { destruct (clr s) as [i|] eqn:E; [|reflexivity]. exfalso.
-    apply (i_clr _ HI) in E. specialize (Hw i). destruct (wpcs s i); simpl in *; discriminate. }
-  pose proof (i_cnt _ HI) as Hc. rewrite Hfl in Hc. simpl in Hc.
+    apply (i_clr _ _ HI) in E. specialize (Hw i). destruct (wpcs s i); simpl in *; discriminate. }
+  pose proof (i_cnt _ _ HI) as Hc. rewrite Hfl in Hc. simpl in Hc.
   destruct (blk (ws s)) eqn:Hb.
   - exfalso. destruct (dl (ws s)) eqn:Hd.
-    + apply (i_cntzero _ HI Hb) in Hc. congruence.
-    + apply (i_arming_own _ HI Hb Hd). exact Hno.
-  - destruct (i_free _ HI Hb) as (Hd & Hcl & _). split; [|exact Hcl].
+    + apply (i_cntzero _ _ HI Hb) in Hc. congruence.
+    + apply (i_arming_own _ _ HI Hb Hd). exact Hno.
+  - destruct (i_free _ _ HI Hb) as (Hd & Hcl & _). split; [|exact Hcl].
     destruct (ws s) as [c b d]; simpl in *; subst; reflexivity.
 Qed.
 
 (* ---- traces, and the monitor on them ------------------------------------------------------ *)
-Lemma trace_reach ls s : trace ls s -> reach s.
+Lemma trace_reach hv ls s : trace hv ls s -> reach hv s.
 Proof. induction 1; [constructor | econstructor; eauto]. Qed.
 
-Lemma reach_trace s : reach s -> exists ls, trace ls s.
+Lemma reach_trace hv s : reach hv s -> exists ls, trace hv ls s.
 Proof.
   induction 1 as [|s l s' _ [ls IH] Hs]; [exists []; constructor|].
   exists (ls ++ [l]). econstructor; eauto.
 Qed.
 
-Lemma step_armfails s l s' : step s l s' ->
+Lemma step_armfails hv s l s' : step hv s l s' ->
   armfails s' = (if label_eqb l (LArm false) then S (armfails s) else armfails s).
 Proof. intros H; inversion H; subst; simpl; try reflexivity; destruct ok; reflexivity. Qed.
 
-Lemma trace_armfails ls s : trace ls s -> (armfails s = 0 <-> ~ In (LArm false) ls).
+Lemma trace_armfails hv ls s : trace hv ls s -> (armfails s = 0 <-> ~ In (LArm false) ls).
 Proof.
   induction 1 as [|ls s l s' Ht IH Hs]; simpl; [tauto|].
-  rewrite (step_armfails _ _ _ Hs), in_app_iff. simpl.
+  rewrite (step_armfails _ _ _ _ Hs), in_app_iff. simpl.
   destruct l; simpl; try (rewrite IH; intuition congruence).
   destruct ok; simpl; [rewrite IH; intuition congruence|]. split; [discriminate|]. intros H. exfalso. apply H. auto.
 Qed.
 
-Lemma step_dl s l s' : step s l s' -> (armed s', clrfailed s') = dl_track (armed s, clrfailed s) (EV l).
+Lemma step_dl hv s l s' : step hv s l s' -> (armed s', clrfailed s') = dl_track (armed s, clrfailed s) (EV l).
 Proof. intros H; inversion H; subst; simpl; reflexivity. Qed.
 
-Lemma trace_dl ls s : trace ls s -> dl_of_log (map EV ls) = (armed s, clrfailed s).
+Lemma trace_dl hv ls s : trace hv ls s -> dl_of_log (map EV ls) = (armed s, clrfailed s).
 Proof.
   unfold dl_of_log. induction 1 as [|ls s l s' Ht IH Hs]; simpl; [reflexivity|].
-  rewrite map_app, fold_left_app, IH. simpl. symmetry. apply step_dl. exact Hs.
+  rewrite map_app, fold_left_app, IH. simpl. symmetry. eapply step_dl. exact Hs.
 Qed.
 
 Lemma samples_exact_nosample st ls : samples_exact st (map EV ls) = true.
 Proof. revert st. induction ls as [|l ls IH]; intros st; simpl; [reflexivity|]. apply IH. Qed.
 
-Lemma wa_monitor_sound ls s : trace ls s -> ~ In (LArm false) ls -> quiescent s ->
+Lemma claimed_of_trace hv ls s : trace hv ls s -> (hv = true \/ ~ In (LArm false) ls) -> claimed hv s.
+Proof. intros Ht [H|H]; [left; exact H|right; apply (trace_armfails _ _ _ Ht); exact H]. Qed.
+
+Lemma wa_monitor_sound hv ls s : trace hv ls s -> (hv = true \/ ~ In (LArm false) ls) -> quiescent s ->
   C13_wa_monitor (map EV ls) (ws s) (armed s) true false = true.
 Proof.
-  intros Ht Hnf Hq. pose proof (trace_reach _ _ Ht) as Hr.
-  apply (trace_armfails _ _ Ht) in Hnf.
-  destruct (quiescent_clean s Hr Hnf Hq) as [Hw Hc].
-  unfold C13_wa_monitor, C13_wa_checks, all_ok. rewrite (trace_dl _ _ Ht). simpl.
+  intros Ht Hnf Hq. pose proof (trace_reach _ _ _ Ht) as Hr.
+  apply (claimed_of_trace _ _ _ Ht) in Hnf.
+  destruct (quiescent_clean hv s Hr Hnf Hq) as [Hw Hc].
+  unfold C13_wa_monitor, C13_wa_checks, all_ok. rewrite (trace_dl _ _ _ Ht). simpl.
   rewrite Hw, samples_exact_nosample. simpl. rewrite eqb_reflx.
   destruct Hc as [-> | ->]; simpl; rewrite ?orb_true_r; reflexivity.
 Qed.
 
 (* with no failing SetWriteDeadline call at all the deadline is cleared *)
-Lemma quiescent_clean_nofail ls s : trace ls s -> ~ In (LArm false) ls -> ~ In (LClear false) ls ->
+Lemma quiescent_clean_nofail hv ls s : trace hv ls s -> (hv = true \/ ~ In (LArm false) ls) -> ~ In (LClear false) ls ->
   quiescent s -> ws s = w0 /\ armed s = false.
 Proof.
-  intros Ht Hnf Hnc Hq. pose proof (trace_reach _ _ Ht) as Hr.
-  apply (trace_armfails _ _ Ht) in Hnf.
-  destruct (quiescent_clean s Hr Hnf Hq) as [Hw [Hc|Hc]]; split; auto.
+  intros Ht Hnf Hnc Hq. pose proof (trace_reach _ _ _ Ht) as Hr.
+  apply (claimed_of_trace _ _ _ Ht) in Hnf.
+  destruct (quiescent_clean hv s Hr Hnf Hq) as [Hw [Hc|Hc]]; split; auto.
   exfalso. clear Hq Hw Hnf Hr. induction Ht as [|ls s l s' Ht IH Hs]; simpl in *; [discriminate|].
   rewrite in_app_iff in Hnc. simpl in Hnc.
   inversion Hs; subst; simpl in *; try (apply IH; tauto); try discriminate.
@@ -269,9 +119,9 @@ Proof. unfold upd. intros H. destruct (Nat.eqb_spec k i); congruence. Qed.
 
 Ltac done_w := eexists; split; [econstructor; solve [eauto | tauto | congruence] | simpl; rewrite ?upd_same; repeat split; auto; intros; apply upd_other; auto].
 
-Lemma wnext_sound s i l w' a' p' :
+Lemma wnext_sound hv s i l w' a' p' :
   In (l, w', a', p') (wnext i (ws s) (armed s) (wpcs s i)) ->
-  exists s', step s l s' /\ ws s' = w' /\ armed s' = a' /\ wpcs s' i = p' /\
+  exists s', step hv s l s' /\ ws s' = w' /\ armed s' = a' /\ wpcs s' i = p' /\
              (forall k, k <> i -> wpcs s' k = wpcs s k) /\ apcs s' = apcs s.
 Proof.
   intros H. destruct (wpcs s i) eqn:E; simpl in H.
@@ -324,9 +174,9 @@ Ltac bool_props :=
 Ltac done_a := eexists; split; [econstructor; solve [eauto | tauto | congruence | intuition congruence] |
   simpl; rewrite ?upd_same; repeat split; auto; intros; apply upd_other; auto].
 
-Lemma anext_sound s j l w' a' p' :
-  In (l, w', a', p') (anext j (ws s) (armed s) (apcs s j)) ->
-  exists s', step s l s' /\ ws s' = w' /\ armed s' = a' /\ apcs s' j = p' /\
+Lemma anext_sound hv s j l w' a' p' :
+  In (l, w', a', p') (anext hv j (ws s) (armed s) (apcs s j)) ->
+  exists s', step hv s l s' /\ ws s' = w' /\ armed s' = a' /\ apcs s' j = p' /\
              (forall k, k <> j -> apcs s' k = apcs s k) /\ wpcs s' = wpcs s.
 Proof.
   intros H. destruct (apcs s j) eqn:E; simpl in H;
@@ -338,9 +188,9 @@ Proof.
 Qed.
 
 (* every step of the relation is produced by the successor function of the thread that takes it *)
-Lemma step_enumerated s l s' : step s l s' ->
+Lemma step_enumerated hv s l s' : step hv s l s' ->
   (exists i, In (l, ws s', armed s', wpcs s' i) (wnext i (ws s) (armed s) (wpcs s i))) \/
-  (exists j, In (l, ws s', armed s', apcs s' j) (anext j (ws s) (armed s) (apcs s j))).
+  (exists j, In (l, ws s', armed s', apcs s' j) (anext hv j (ws s) (armed s) (apcs s j))).
 Proof.
   intros H; inversion H; subst;
   match goal with
@@ -352,6 +202,7 @@ Proof.
   | Hb : dl _ = _ |- _ => rewrite Hb
   | Hb : cnt _ = _ |- _ => rewrite Hb
   | Hb : armed _ = _ |- _ => rewrite Hb
+  | Hb : undo_done _ _ = _ |- _ => rewrite Hb
   end; simpl;
   repeat match goal with
   | |- context [word_eqb ?a ?a] => replace (word_eqb a a) with true by (symmetry; apply word_eqb_eq; reflexivity)
@@ -363,7 +214,6 @@ Proof.
   - destruct H1 as [-> | ->]; simpl; auto. rewrite orb_true_r. simpl; auto.
   - destruct (Nat.eqb_spec (cnt (ws s)) 0); [contradiction|]. simpl; auto.
   - destruct H1 as [-> | ->]; simpl; auto. rewrite orb_true_r. simpl; auto.
-  - destruct H1 as [-> | ->]; simpl; auto. rewrite andb_false_r. simpl; auto.
 Qed.
 
 (* ---- liveness, partial: whoever spins has a helper -------------------------------------------
@@ -381,19 +231,19 @@ Proof. intros [[_ H]|[_ [H _]]]; exact H. Qed.
 Ltac step_w i := eexists; eexists; split; [econstructor; solve [eauto | tauto | congruence] |
   simpl; rewrite upd_same; congruence].
 
-Lemma blocked_has_helper s : reach s -> armfails s = 0 -> blk (ws s) = true ->
+Lemma blocked_has_helper hv s : reach hv s -> claimed hv s -> blk (ws s) = true ->
   (dl (ws s) = false /\ exists j l s', own s = Some j /\ owning (apcs s j) = true /\
-                                       step s l s' /\ apcs s' j <> apcs s j) \/
+                                       step hv s l s' /\ apcs s' j <> apcs s j) \/
   (dl (ws s) = true /\ exists i l s', (inflight (wpcs s i) = true \/ clearing (wpcs s i) = true) /\
-                                      ~ w_spins s i /\ step s l s' /\ wpcs s' i <> wpcs s i).
+                                      ~ w_spins s i /\ step hv s l s' /\ wpcs s' i <> wpcs s i).
 Proof.
-  intros Hr Hnf Hb. pose proof (reach_inv s Hr Hnf) as HI.
+  intros Hr Hnf Hb. pose proof (reach_inv hv s Hr Hnf) as HI.
   destruct (dl (ws s)) eqn:Hd; [right|left]; split; auto.
   - (* deadline bit set: writers drain, then the clearer *)
     destruct (fl s) as [|x l] eqn:Efl.
-    + pose proof (i_cnt _ HI) as Hc. rewrite Efl in Hc. simpl in Hc.
-      apply (i_cntzero _ HI Hb) in Hc. destruct (clr s) as [i|] eqn:Ec; [|congruence].
-      pose proof (proj1 (i_clr _ HI i) Ec) as Hcl. exists i.
+    + pose proof (i_cnt _ _ HI) as Hc. rewrite Efl in Hc. simpl in Hc.
+      apply (i_cntzero _ _ HI Hb) in Hc. destruct (clr s) as [i|] eqn:Ec; [|congruence].
+      pose proof (proj1 (i_clr _ _ HI i) Ec) as Hcl. exists i.
       assert (Hns : ~ w_spins s i).
       { intros [[Hp _]|[_ [_ Hd']]]; [rewrite Hp in Hcl; discriminate|congruence]. }
       destruct (wpcs s i) eqn:Ep; simpl in Hcl; try discriminate.
@@ -407,10 +257,10 @@ Proof.
         -- apply w_clr_store; auto.
         -- simpl. rewrite upd_same. congruence.
     + assert (Hin : In x (fl s)) by (rewrite Efl; now left).
-      pose proof (proj1 (i_fl _ HI x) Hin) as Hfl. exists x.
+      pose proof (proj1 (i_fl _ _ HI x) Hin) as Hfl. exists x.
       assert (Hns : ~ w_spins s x).
       { intros [[Hp _]|[Hp _]]; rewrite Hp in Hfl; discriminate. }
-      assert (Hc : cnt (ws s) <> 0) by (rewrite (i_cnt _ HI), Efl; simpl; lia).
+      assert (Hc : cnt (ws s) <> 0) by (rewrite (i_cnt _ _ HI), Efl; simpl; lia).
       destruct (wpcs s x) eqn:Ep; simpl in Hfl; try discriminate.
       * exists (LSockIn x), (set_w s x WSock). repeat split; auto.
         -- apply w_sock_in; auto.
@@ -441,8 +291,8 @@ Proof.
            ++ eapply w_fin_cas_last_fail; eauto.
            ++ simpl. rewrite upd_same. congruence.
   - (* the owner of blocked arms the deadline and sets the deadline bit *)
-    pose proof (i_arming_own _ HI Hb Hd) as Ho. destruct (own s) as [j|] eqn:Eo; [|congruence].
-    pose proof (proj1 (i_own _ HI j) Eo) as Hown. exists j.
+    pose proof (i_arming_own _ _ HI Hb Hd) as Ho. destruct (own s) as [j|] eqn:Eo; [|congruence].
+    pose proof (proj1 (i_own _ _ HI j) Eo) as Hown. exists j.
     destruct (apcs s j) eqn:Ep; simpl in Hown; try discriminate.
     + exists (LArm true), (set_clrfailed (set_armed (set_a s j AArm) true) false). repeat split; auto.
       * apply a_arm_ok; auto.
@@ -457,6 +307,17 @@ Proof.
       * exists Tau, (set_a s j AArm). repeat split; auto.
         -- eapply a_arm_cas_fail; eauto.
         -- simpl. rewrite upd_same. congruence.
+    + (* clearWriteAbortState after a failed arming (only reachable with the handover variant) *)
+      exists Tau, (set_a s j (AUndoCas (ws s))). repeat split; auto.
+      * apply a_undo_load; auto. unfold undo_done. rewrite Hb. destruct hv; reflexivity.
+      * simpl. rewrite upd_same. congruence.
+    + destruct (word_dec (ws s) r) as [E|E].
+      * exists Tau, (set_own (set_ws (set_a s j (ARet false)) (undo_target hv r)) None). repeat split; auto.
+        -- apply a_undo_cas_ok; auto.
+        -- simpl. rewrite upd_same. congruence.
+      * exists Tau, (set_a s j AUndo). repeat split; auto.
+        -- eapply a_undo_cas_fail; eauto.
+        -- simpl. rewrite upd_same. congruence.
 Qed.
 
 (* ---- non-vacuity: a complete abort (one writer blocked in the socket, one abort, no failure) -- *)
@@ -466,17 +327,17 @@ Tactic Notation "tnxt" hyp(T) uconstr(c) :=
   cbv [set_w set_a set_ws set_armed set_fl set_own set_clr bump_armfails set_clrfailed
        ws armed wpcs apcs fl own clr armfails clrfailed init] in T.
 
-Lemma example_abort_cycle :
-  exists ls s, trace ls s /\ ~ In (LArm false) ls /\ ~ In (LClear false) ls /\ quiescent s /\
+Lemma example_abort_cycle hv :
+  exists ls s, trace hv ls s /\ ~ In (LArm false) ls /\ ~ In (LClear false) ls /\ quiescent s /\
                In (LArm true) ls /\ In (LSockOut 0 false) ls /\ In (LClear true) ls.
 Proof.
-  pose proof trace_nil as T.
-  tnxt T (w_call _ 0). tnxt T (w_start_load _ 0). tnxt T (w_start_cas_ok _ 0). tnxt T (w_sock_in _ 0).
-  tnxt T (a_call _ 0). tnxt T (a_load _ 0). tnxt T (a_cas_ok _ 0). tnxt T (a_arm_ok _ 0).
-  tnxt T (w_sock_timeout _ 0).
-  tnxt T (w_fin_load_last _ 0). tnxt T (w_fin_cas_last_ok _ 0). tnxt T (w_clr_spin _ 0).
-  tnxt T (a_arm_load _ 0). tnxt T (a_arm_cas_ok _ 0). tnxt T (a_ret _ 0).
-  tnxt T (w_clr_go _ 0). tnxt T (w_clr_set_ok _ 0). tnxt T (w_clr_store _ 0). tnxt T (w_ret _ 0).
+  pose proof (trace_nil hv) as T.
+  tnxt T (w_call _ _ 0). tnxt T (w_start_load _ _ 0). tnxt T (w_start_cas_ok _ _ 0). tnxt T (w_sock_in _ _ 0).
+  tnxt T (a_call _ _ 0). tnxt T (a_load _ _ 0). tnxt T (a_cas_ok _ _ 0). tnxt T (a_arm_ok _ _ 0).
+  tnxt T (w_sock_timeout _ _ 0).
+  tnxt T (w_fin_load_last _ _ 0). tnxt T (w_fin_cas_last_ok _ _ 0). tnxt T (w_clr_spin _ _ 0).
+  tnxt T (a_arm_load _ _ 0). tnxt T (a_arm_cas_ok _ _ 0). tnxt T (a_ret _ _ 0).
+  tnxt T (w_clr_go _ _ 0). tnxt T (w_clr_set_ok _ _ 0). tnxt T (w_clr_store _ _ 0). tnxt T (w_ret _ _ 0).
   eexists. eexists. split; [exact T|]. cbv [app].
   repeat split; try (intros i; destruct i as [|i]; reflexivity);
     try (simpl; intuition discriminate); simpl; tauto.
@@ -541,34 +402,34 @@ Proof.
 Qed.
 
 (* ---- the statements used by Props/C13.v ------------------------------------------------------- *)
-Lemma quiescent_clean_trace ls s :
-  trace ls s -> ~ In (LArm false) ls -> quiescent s ->
+Lemma quiescent_clean_trace hv ls s :
+  trace hv ls s -> (hv = true \/ ~ In (LArm false) ls) -> quiescent s ->
   ws s = w0 /\ (armed s = false \/ clrfailed s = true).
 Proof.
-  intros Ht Hnf Hq. apply quiescent_clean; auto.
+  intros Ht Hnf Hq. apply (quiescent_clean hv); auto.
   - eapply trace_reach; eauto.
-  - apply (trace_armfails _ _ Ht); auto.
+  - eapply claimed_of_trace; eauto.
 Qed.
 
-Lemma no_stuck_spin s : reach s -> armfails s = O ->
+Lemma no_stuck_spin hv s : reach hv s -> (hv = true \/ armfails s = O) ->
   (forall i, w_spins s i -> blk (ws s) = true) /\
   (blk (ws s) = true ->
    (dl (ws s) = false /\ exists j l s', own s = Some j /\ owning (apcs s j) = true /\
-                                        step s l s' /\ apcs s' j <> apcs s j) \/
+                                        step hv s l s' /\ apcs s' j <> apcs s j) \/
    (dl (ws s) = true /\ exists i l s', (inflight (wpcs s i) = true \/ clearing (wpcs s i) = true) /\
-                                       ~ w_spins s i /\ step s l s' /\ wpcs s' i <> wpcs s i)).
+                                       ~ w_spins s i /\ step hv s l s' /\ wpcs s' i <> wpcs s i)).
 Proof.
   intros Hr Hnf. split.
   - intros i. apply spins_blocked.
   - apply blocked_has_helper; assumption.
 Qed.
 
-Lemma successors_sound s :
+Lemma successors_sound hv s :
   (forall i l w' a' p', In (l, w', a', p') (wnext i (ws s) (armed s) (wpcs s i)) ->
-     exists s', step s l s' /\ ws s' = w' /\ armed s' = a' /\ wpcs s' i = p' /\
+     exists s', step hv s l s' /\ ws s' = w' /\ armed s' = a' /\ wpcs s' i = p' /\
                 (forall k, k <> i -> wpcs s' k = wpcs s k) /\ apcs s' = apcs s) /\
-  (forall j l w' a' p', In (l, w', a', p') (anext j (ws s) (armed s) (apcs s j)) ->
-     exists s', step s l s' /\ ws s' = w' /\ armed s' = a' /\ apcs s' j = p' /\
+  (forall j l w' a' p', In (l, w', a', p') (anext hv j (ws s) (armed s) (apcs s j)) ->
+     exists s', step hv s l s' /\ ws s' = w' /\ armed s' = a' /\ apcs s' j = p' /\
                 (forall k, k <> j -> apcs s' k = apcs s k) /\ wpcs s' = wpcs s).
 Proof.
   split.
@@ -585,3 +446,30 @@ Lemma word_encoding w : word_ok w ->
    encode w0 = 0 /\ 0 <= encode w < 2 ^ 64 /\
    (forall w', word_ok w' -> encode w = encode w' -> w = w')).
 Proof. intros H. split; [apply encode_fields | apply encode_ops]; exact H. Qed.
+
+(* the two variants separately *)
+Lemma quiescent_clean_current ls s :
+  trace false ls s -> ~ In (LArm false) ls -> quiescent s ->
+  ws s = w0 /\ (armed s = false \/ clrfailed s = true).
+Proof. intros Ht Hn. apply (quiescent_clean_trace false ls s Ht). right. exact Hn. Qed.
+
+Lemma quiescent_clean_fixed ls s :
+  trace true ls s -> quiescent s -> ws s = w0 /\ (armed s = false \/ clrfailed s = true).
+Proof. intros Ht. apply (quiescent_clean_trace true ls s Ht). left. reflexivity. Qed.
+
+Lemma quiescent_clean_nofail_current ls s :
+  trace false ls s -> ~ In (LArm false) ls -> ~ In (LClear false) ls -> quiescent s ->
+  ws s = w0 /\ armed s = false.
+Proof. intros Ht Hn. apply (quiescent_clean_nofail false ls s Ht). right. exact Hn. Qed.
+
+Lemma quiescent_clean_nofail_fixed ls s :
+  trace true ls s -> ~ In (LClear false) ls -> quiescent s -> ws s = w0 /\ armed s = false.
+Proof. intros Ht. apply (quiescent_clean_nofail true ls s Ht). left. reflexivity. Qed.
+
+Lemma count_exact_current s : reach false s -> armfails s = O ->
+  exists l, NoDup l /\ (forall i, In i l <-> inflight (wpcs s i) = true) /\ cnt (ws s) = length l.
+Proof. intros Hr Hn. apply (count_exact false s Hr). right. exact Hn. Qed.
+
+Lemma count_exact_fixed s : reach true s ->
+  exists l, NoDup l /\ (forall i, In i l <-> inflight (wpcs s i) = true) /\ cnt (ws s) = length l.
+Proof. intros Hr. apply (count_exact true s Hr). left. reflexivity. Qed.
